@@ -14,7 +14,8 @@ def main():
     ap.add_argument("--tier", default=os.environ.get("VERIF_TIER") or "quick", choices=["quick", "thorough"])
     ap.add_argument("--replay")
     ap.add_argument("rest", nargs="*")
-    a = ap.parse_args()
+    a, extra = ap.parse_known_args()
+    a.rest = list(a.rest) + list(extra)
     try:
         seed = int(os.environ.get("VERIF_SEED", "0"))
     except ValueError:
